@@ -1,5 +1,6 @@
 import Ucan.Driver.Policy
 import Ucan.Model.Chain
+import Ucan.Model.Immut
 /-!
 `chain.allowed <inv> <prf> <dlgs> <now> <args> <hook>`
 * inv  = `iss,sub,aud,cmdhex,exp`            (aud, exp: `-` when absent; principals are small numbers)
@@ -41,6 +42,12 @@ def commandB (inv : Inv Nat (Option Nat) Unit) (ds : List (Dlg Nat)) : Bool :=
   ((List.range (ds.length - 1)).all fun i =>
     match ds[i]?, ds[i+1]? with | some a, some b => Command.covers b.cmd a.cmd | _, _ => false)
 
+/-- `args.Args.ToIPLD`: what the validation matches the policies on is ONE map with the keys in sorted order, in whatever
+order the caller (or the argument hook) supplied them. The line carries the supply order. -/
+def argsToIPLD : Node → Node
+  | .map kvs => Immut.argsNode kvs
+  | n => n
+
 partial def runChain : List String → Option String
   | ["chain.allowed", inv, prf, dlgs, now, args, hook, _irrelevant] => runChain ["chain.allowed", inv, prf, dlgs, now, args, hook]
   | ["chain.allowed", inv, prf, dlgs, now, args, hook] => do
@@ -48,7 +55,7 @@ partial def runChain : List String → Option String
     let prf : List (Option Nat) ← if prf == "-" then some [] else
       (prf.splitOn ".").mapM (fun s => if s == "x" || s.startsWith "v" then some none else (s.toNat?).map some)
     let now ← now.toInt?
-    let args ← nodeFromStr args
+    let args := argsToIPLD (← nodeFromStr args)
     match inv.splitOn "," with
     | [iss, sub, aud, cmd, exp] =>
       let iss ← iss.toNat?; let sub ← sub.toNat?; let aud ← optNat aud
@@ -59,7 +66,7 @@ partial def runChain : List String → Option String
       let hookF : Option (Node → Option Node) ←
         if hook == "-" then some none
         else if hook == "!" then some (some (fun _ => none))
-        else (nodeFromStr hook).map (fun a => some (fun _ => some a))
+        else (nodeFromStr hook).map (fun a => some (fun _ => some (argsToIPLD a)))
       let verdict := match hookF with
         | none => allowed ld now i
         | some h => allowedWithHook ld now i h
